@@ -171,13 +171,13 @@ def setup(ctx):
     _S["skip"] = skip
     _S["examples"] = None
     _S["corpus_seen"] = 0
-    # keep at most 3 witnesses per mechanism and shard (the worker stores 40 violations per shard in total; a frequent
+    # keep one witness per mechanism and shard (the worker stores 40 violations per shard in total; a frequent
     # mechanism must not crowd out a rare one).  Repeats are still counted, as events.
     counts, orig_fail = {}, ctx.fail
 
     def fail(mech, msg, **witness):
         counts[mech] = counts.get(mech, 0) + 1
-        if counts[mech] <= 3:
+        if counts[mech] <= 1:
             orig_fail(mech, msg, **witness)
         else:
             ctx.event("violating-observation-repeat:" + mech)
@@ -624,7 +624,10 @@ def check_value(ctx, v, origin, light=False, repr_checks=True):
     try:
         txt = cirq.to_json(x)
     except Exception as e:  # noqa  (x was accepted by its public constructor: writing it must not fail)
-        ctx.check(False, "json-writable", "C11:to-json-raises:%s:%s" % (type(e).__name__, _slug(str(e))),
+        key = "C11:to-json-raises:%s:%s" % (type(e).__name__, _slug(str(e)))
+        if isinstance(e, TypeError) and str(e).startswith("unhashable type"):
+            key = "C11:to-json-raises:unhashable-value-inside-frozen-circuit"  # the encoder's VAL/REF memo hashes the FrozenCircuit
+        ctx.check(False, "json-writable", key,
                   "to_json(x) raised %s: %s" % (type(e).__name__, str(e)[:300]), where=_where(e), **wit)
         return Outcome()
     ctx.ok("json-writable")
@@ -640,11 +643,11 @@ def check_value(ctx, v, origin, light=False, repr_checks=True):
     container = isinstance(x, (list, tuple, dict))
     top_container = container or isinstance(x, np.ndarray) or type(x).__module__.split(".")[0] in ("pandas", "numpy", "builtins")
 
-    eq_raised = None
+    eq_raised = eq_raised_by = None
     try:
         eq = _peq2(y, x)
     except _EqRaised as e:
-        eq, eq_raised = False, str(e)
+        eq, eq_raised, eq_raised_by = False, str(e), _raiser_class(e.__cause__, x)
     sdiffs = _sdiff(x, y)
     jdiffs = [] if txt2 == txt else _json_tree_diffs(json.loads(txt), json.loads(txt2))
 
@@ -652,8 +655,7 @@ def check_value(ctx, v, origin, light=False, repr_checks=True):
     fail_key = None
     if eq_raised is not None:
         # the value cannot even be compared with its copy; the field-by-field comparison below still judges the round trip
-        cul = _eq_raiser(x)
-        ctx.check(False, "json-roundtrip-eq", "C11:eq-raises:" + _cls(cul), "comparing x with its JSON copy raised " + eq_raised, **wit)
+        ctx.check(False, "json-roundtrip-eq", "C11:eq-raises:" + eq_raised_by, "comparing x with its JSON copy raised " + eq_raised, **wit)
         eq = not sdiffs
     else:
         if not eq:
@@ -754,7 +756,7 @@ def check_value(ctx, v, origin, light=False, repr_checks=True):
             if type(cul).__repr__ is object.__repr__:
                 ctx.reject("repr-eval:class-defines-no-repr")
             else:
-                ctx.check(False, "repr-eval-eq", "C11:repr-not-evaluable:%s:%s" % (_cls(cul), type(e2).__name__),
+                ctx.check(False, "repr-eval-eq", "C11:repr-not-evaluable:%s" % _cls(cul),
                           "eval(repr(x)) raised %s: %s; innermost object whose repr does not evaluate back: %s"
                           % (type(e2).__name__, e2, repr(cul)[:300]), **wit)
     if z is not None:
@@ -892,6 +894,8 @@ def sec_generated(ctx, rng, case):
     v = fn(rng)
     res = check_value(ctx, v, "typed")
     txt = res.txt
+    if txt is not None and res.y is None:
+        _val_before_ref(ctx, txt, dict(gen=v.gen))
     if txt is None or res.y is None:
         ctx.distinct(("gen-unwritable", name, repr(v.obj)[:200]), nontrivial=True)
         return
@@ -1040,8 +1044,11 @@ def _near_duplicates(rng, case):
         pool.append(cirq.read_json(json_text=cirq.to_json(a)))
     except Exception:  # noqa
         pass
-    pool.append(copy.deepcopy(a))
-    dup.append(pool[-1])
+    try:
+        pool.append(copy.deepcopy(a))
+        dup.append(pool[-1])
+    except Exception:  # noqa  (judged in section `copies`)
+        pass
     dup_groups.append(dup)
     for k in range(3):
         pool.append(fn(np.random.default_rng(seed + 1 + k)).obj)
@@ -1073,6 +1080,17 @@ def _eq(a, b):
     return r is not NotImplemented and bool(r)
 
 
+def _raiser_class(e, default):
+    """Class of the object whose method raised (innermost frame with a `self`)."""
+    tb, name = e.__traceback__, None
+    while tb is not None:
+        me = tb.tb_frame.f_locals.get("self")
+        if me is not None and (type(me).__module__ or "").startswith("cirq"):
+            name = type(me).__name__
+        tb = tb.tb_next
+    return name or _cls(default)
+
+
 def _eq_raises(a):
     try:
         a == a  # noqa
@@ -1096,9 +1114,9 @@ def sec_eqhash(ctx, rng, case):
                 ctx.ok("eq-total")
             except Exception as e:  # noqa
                 # == must answer (True / False / NotImplemented) for any other object
-                cul = _eq_raiser(pool[i]) if i == j else pool[i]
-                ctx.check(False, "eq-total", "C11:eq-raises:" + _cls(cul), "a == b raised %s: %s" % (type(e).__name__, str(e)[:200]),
-                          a=repr(pool[i])[:300], b=repr(pool[j])[:300])
+                ctx.check(False, "eq-total", "C11:eq-raises:" + _raiser_class(e, pool[i]),
+                          "a == b raised %s: %s" % (type(e).__name__, str(e)[:200]), a=repr(pool[i])[:300], b=repr(pool[j])[:300],
+                          where=_where(e))
                 continue
             eqm[i][j] = bool(r.all()) if isinstance(r, np.ndarray) else (r is not NotImplemented and bool(r))
     for i in range(n):
@@ -1204,7 +1222,12 @@ def _copy_history(ctx, x, gen):
     wit = dict(gen=gen, repr=repr(x)[:500], cls=cname)
     hx, hashx = _hashable(x)  # first: populates any cached hash
     for how, f in (("copy", copy.copy), ("deepcopy", copy.deepcopy)):
-        c = f(x)
+        try:
+            c = f(x)
+        except Exception as e:  # noqa
+            ctx.check(False, "copy-eq", "C11:%s-raises:%s" % (how, _raiser_class(e, x)), "%s(x) raised %s: %s" % (how, type(e).__name__, e),
+                      where=_where(e), **wit)
+            continue
         ok = _same(c, x)
         d = _sdiff(x, c) if ok else []
         ctx.check(ok and type(c) is type(x), "copy-eq", "C11:%s-not-equal:%s" % (how, cname), "%s(x) != x" % how, **wit)
@@ -1325,7 +1348,7 @@ def sec_pickle_child(ctx, rng, case):
             continue
         if rec.get("eq"):
             ctx.check(rec.get("hash_eq", False) and rec.get("lookup", False) and rec.get("hash_stable", False), "pickle-child:hash",
-                      "C11:stale-hash-after-unpickle:" + cname,
+                      "C11:stale-hash-after-unpickle",
                       "hash(unpickled) != hash(equal fresh value) in a process with another hash seed (hash_eq=%s lookup=%s stable=%s)"
                       % (rec.get("hash_eq"), rec.get("lookup"), rec.get("hash_stable")), **wit)
         ctx.distinct(("child", cname, rx), nontrivial=True)
@@ -1334,11 +1357,11 @@ def sec_pickle_child(ctx, rng, case):
 
 SECTIONS = [
     ("corpus", sec_corpus, len(FILES), len(FILES), 1.6),
-    ("generated", sec_generated, 12000, 220000, 4.0),
-    ("mutants", sec_mutants, 4200, 80000, 2.0),
-    ("composed", sec_composed, 1800, 30000, 1.2),
-    ("eqhash", sec_eqhash, 1400, 30000, 1.2),
-    ("qidorder", sec_qidorder, 2800, 60000, 0.5),
-    ("copies", sec_copies, 2800, 60000, 1.0),
+    ("generated", sec_generated, 15000, 240000, 4.0),
+    ("mutants", sec_mutants, 5000, 80000, 2.0),
+    ("composed", sec_composed, 2400, 36000, 1.2),
+    ("eqhash", sec_eqhash, 2000, 30000, 1.2),
+    ("qidorder", sec_qidorder, 4000, 60000, 0.5),
+    ("copies", sec_copies, 4000, 60000, 1.0),
     ("pickle_child", sec_pickle_child, 14, 64, 1.5),
 ]
